@@ -1,7 +1,7 @@
 (* C10 -- property theorems only. *)
 From Coq Require Import QArith List Arith Bool.
 Import ListNotations.
-From PD Require Import Model.Overlap Model.Grid Proofs.Overlap Proofs.C10 Proofs.GridSym.
+From PD Require Import Model.Overlap Model.Grid Model.OverlapCases Proofs.Overlap Proofs.C10 Proofs.GridSym.
 Local Open Scope Q_scope.
 
 (* D i j : surface distance between original droplets i and j (any table), rad : radii,
@@ -60,6 +60,12 @@ Theorem C10_remove_small_is_filter : forall rad mn l,
   remove_small rad mn l = filter (fun k => negb (Qle_bool (rad k) mn)) l.
 Proof. exact remove_small_filter. Qed.
 Print Assumptions C10_remove_small_is_filter.
+
+(* cylindrical grids: for droplets on the symmetry axis the metric is Euclidean for periodic and non-periodic z alike *)
+Theorem C10_cylinder_axis_metric : forall nr nz R z0 z1 pz a b,
+  dist2 (cyl_metric nr nz R z0 z1 pz) [0; 0; a] [0; 0; b] == (b - a) * (b - a).
+Proof. exact cyl_axis_metric. Qed.
+Print Assumptions C10_cylinder_axis_metric.
 
 (* non-vacuity: three droplets, 0 and 1 overlap (1 is larger), 2 is far away *)
 Example C10_nonvacuous :
